@@ -35,7 +35,7 @@ Qed.
 
 Lemma exit_point (L : list (R * R)) :
   (forall p, In p L -> fst p <= 0) -> (exists p, In p L /\ 0 < snd p) ->
-  exists t, 0 <= t < 1 /\ (exists p, In p L /\ lin p t = 0) /\ forall p, In p L -> lin p t <= 0.
+  exists t, 0 <= t < 1 /\ (exists p, In p L /\ lin p t = 0 /\ 0 < snd p) /\ forall p, In p L -> lin p t <= 0.
 Proof.
   elim: L => [|p L IH] H0 [q [Hq Hq1]]; first by case: Hq.
   have Hp0 : fst p <= 0 by apply H0; left.
@@ -47,9 +47,9 @@ Proof.
     case: (Rlt_dec 0 (snd a)) => Ha; first by left; exists a; split; [left|].
     right => q' [<-|Hq']; [lra | by apply H]. }
   case: Hdec => [Hex|Hall].
-  - have [t' [[Ht0 Ht1] [[p' [Hp' Hz]] Hle]]] := IH HL0 Hex.
+  - have [t' [[Ht0 Ht1] [[p' [Hp' [Hz Hs']]] Hle]]] := IH HL0 Hex.
     case: (Rle_dec (lin p t') 0) => Hpt.
-    + exists t'. split=> //. split; first by exists p'; split; [right|].
+    + exists t'. split=> //. split; first by exists p'; split; [right|split].
       move=> p'' [<-|Hin] //. by apply Hle.
     + (* p is crossed before t' *)
       have Hpt' : 0 < lin p t' by lra.
@@ -63,13 +63,13 @@ Proof.
         case: (Rle_dec t t') => Hn; first exact Hn. exfalso.
         have : lin p t' <= lin p t. { rewrite /lin. have : (t - t') * (snd p - fst p) >= 0 by apply Rle_ge, Rmult_le_pos; lra. lra. }
         lra. }
-      exists t. split; first lra. split; first by exists p; split; [left|].
+      exists t. split; first lra. split; first by exists p; split; [left|split].
       move=> p'' [<-|Hin]; first lra.
       apply (lin_le p'' t t'); [by apply HL0 | by apply Hle | lra | lra].
   - (* only p is violated *)
     have Hs : 0 < snd p. { case: Hq => [E|Hin]; first by rewrite E. have := Hall q Hin. lra. }
     have [[Hr0 Hr1] Hrz] := root p Hp0 Hs. set t := - fst p / (snd p - fst p) in Hr0 Hr1 Hrz.
-    exists t. split; first lra. split; first by exists p; split; [left|].
+    exists t. split; first lra. split; first by exists p; split; [left|split].
     move=> p'' [<-|Hin]; first lra.
     rewrite /lin. have A := HL0 p'' Hin. have B := Hall p'' Hin.
     have : (1 - t) * fst p'' <= 0 by (have : 0 <= (1 - t) * (- fst p'') by apply Rmult_le_pos; lra); lra.
@@ -77,7 +77,6 @@ Proof.
 Qed.
 
 (* ---- 2. consecutive edges of a cycle ---- *)
-Definition ctrip {A} (l : list A) : list (A * (A * A)) := combine l (combine (roll l) (roll (roll l))).
 
 Lemma combine3_next {A} (l1 l2 l3 : list A) a b :
   length l3 = length l2 -> In (a, b) (combine l1 l2) -> exists c, In (a, (b, c)) (combine l1 (combine l2 l3)).
@@ -243,7 +242,7 @@ Proof.
   have HL1 : exists p, In p L /\ 0 < snd p.
   { exists (side_val F e0 y, side_val F e0 px). split; first by apply in_map_iff; exists e0.
     rewrite Spx. exact Hv0. }
-  have [t [[Ht0 Ht1] [[p [Hp' Hz]] Hle]]] := exit_point L HL0 HL1.
+  have [t [[Ht0 Ht1] [[p [Hp' [Hz _]]] Hle]]] := exit_point L HL0 HL1.
   move/in_map_iff: Hp' => [[a b] [Ep Hab]]. rewrite -Ep /lin in Hz. cbn [fst snd] in Hz.
   set w := on_seg y px t.
   have Hw : in_faceP F w.
@@ -304,4 +303,160 @@ Example ex_face_strictly_convex : strictly_convex ex_face.
 Proof.
   move=> a b c. rewrite /ctrip /ex_face /roll /fnormal3. cbn [app combine List.nth In].
   intros H. destruct H as [E|[E|[E|[E|[]]]]]; injection E; intros; subst; unf; lra.
+Qed.
+
+(* ---- 5. the global step: the face through which the segment from a point of the core to x leaves the core is looked at, and accepts ---- *)
+(* every face is the whole intersection of its plane with the solid *)
+Definition faces_cover (Fs : list (list V3)) : Prop :=
+  forall F w, In F Fs -> in_core Rops Fs w = true -> plane_val Rops F w = 0 -> side_ok F w.
+
+Lemma in_core_spec Fs w : in_core Rops Fs w = true <-> forall F, In F Fs -> plane_val Rops F w <= 0.
+Proof.
+  rewrite /in_core forallb_forall. split=> H F HF; [apply Rleb_true | apply Rleb_true]; exact (H F HF).
+Qed.
+
+Lemma cauchy_schwarz (u v : V3) : vdot Rops u v * vdot Rops u v <= vdot Rops u u * vdot Rops v v.
+Proof.
+  vsimp u; vsimp v. unf.
+  have : 0 <= (x * y0 - y * x0) * (x * y0 - y * x0) + (y * z0 - z * y0) * (y * z0 - z * y0) + (z * x0 - x * z0) * (z * x0 - x * z0).
+  { have := Rle_0_sqr (x * y0 - y * x0); have := Rle_0_sqr (y * z0 - z * y0); have := Rle_0_sqr (z * x0 - x * z0). rewrite /Rsqr. lra. }
+  move=> H. nra.
+Qed.
+
+Theorem sphero_inside_complete r2 Fs x y :
+  (forall F, In F Fs -> face_wf F /\ strictly_convex F) -> faces_cover Fs ->
+  in_core Rops Fs y = true -> dist2 x y <= r2 -> sphero_inside Rops r2 Fs x = true.
+Proof.
+  move=> Hwf Hcov Hy Hd. rewrite /sphero_inside.
+  case Hx: (in_core Rops Fs x) => //=.
+  have Hy' := proj1 (in_core_spec Fs y) Hy.
+  have [F0 [HF0 Hv0]] := forallb_false _ _ Hx. move/Rleb_false: Hv0 => Hv0. cbn [o0 Rops] in Hv0.
+  set L := map (fun F => (plane_val Rops F y, plane_val Rops F x)) Fs.
+  have HL0 : forall p, In p L -> fst p <= 0 by move=> p /in_map_iff [F [<- HF]]; exact (Hy' F HF).
+  have HL1 : exists p, In p L /\ 0 < snd p.
+  { exists (plane_val Rops F0 y, plane_val Rops F0 x). split=> //. apply in_map_iff. by exists F0. }
+  have [t [[Ht0 Ht1] [[p [Hp [Hz Hpos]]] Hle]]] := exit_point L HL0 HL1.
+  move/in_map_iff: Hp => [F [Ep HF]]. rewrite -Ep /lin in Hz Hpos. cbn [fst snd] in Hz, Hpos.
+  set w := on_seg y x t.
+  have Pw : forall G, plane_val Rops G w = (1 - t) * plane_val Rops G y + t * plane_val Rops G x by move=> G; rewrite /w plane_val_seg.
+  have Hwcore : in_core Rops Fs w = true.
+  { apply in_core_spec => G HG. rewrite Pw. have := Hle (plane_val Rops G y, plane_val Rops G x). rewrite /lin. cbn [fst snd]. apply.
+    apply in_map_iff. by exists G. }
+  have HwF : plane_val Rops F w = 0 by rewrite Pw.
+  have Hwface : in_faceP F w by split=> //; apply (Hcov F w HF Hwcore HwF).
+  have Hdw : dist2 x w <= r2. { have := dist2_seg_end y x t (conj Ht0 (Rlt_le _ _ Ht1)). rewrite -/w. lra. }
+  have [W C] := Hwf F HF.
+  (* the face is looked at: 0 < plane value, and (plane value)^2 <= r2 |N|^2 by Cauchy-Schwarz *)
+  have Hto : to_check Rops r2 F x = true.
+  { rewrite /to_check. apply andb_true_iff. split; first by apply Rltb_true.
+    apply Rleb_true. cbn [omul Rops].
+    have E : plane_val Rops F x = vdot Rops (fnormal3 Rops F) (vsub Rops x w) by rewrite -plane_val_diff HwF; ring.
+    rewrite E. have CS := cauchy_schwarz (fnormal3 Rops F) (vsub Rops x w).
+    have HNN := dot_self_pos (fnormal3 Rops F).
+    have : vdot Rops (fnormal3 Rops F) (fnormal3 Rops F) * dist2 x w <= vdot Rops (fnormal3 Rops F) (fnormal3 Rops F) * r2 by apply Rmult_le_compat_l.
+    rewrite /dist2. lra. }
+  apply existsb_exists. exists F. split=> //. apply andb_true_iff. split=> //.
+  apply (proj2 (check_face_iff r2 F x W C Hto)). by exists w.
+Qed.
+
+(* ---- 6. a checkable certificate for "every face is the whole intersection of its plane with the solid": along every edge of every face
+        there is a neighbouring face through both end points of the edge whose normal has a positive component along the outward in-plane
+        side normal e x N ---- *)
+Definition edge_covered (Fs : list (list V3)) (F : list V3) (e : V3 * V3) : Prop :=
+  exists G, In G Fs /\ plane_val Rops G (fst e) = 0 /\ plane_val Rops G (snd e) = 0
+            /\ 0 < vdot Rops (fnormal3 Rops G) (vcross Rops (vsub Rops (snd e) (fst e)) (fnormal3 Rops F)).
+Definition cover_cert (Fs : list (list V3)) : Prop :=
+  forall F e, In F Fs -> In e (cpairs F) -> edge_covered Fs F e.
+
+Lemma side_sign (e N G v : V3) :
+  vdot Rops e N = 0 -> vdot Rops G e = 0 -> vdot Rops v N = 0 ->
+  vdot Rops e e * vdot Rops N N * vdot Rops G v = vdot Rops v (vcross Rops e N) * vdot Rops G (vcross Rops e N).
+Proof.
+  move: e N G v => [[e1 e2] e3] [[n1 n2] n3] [[g1 g2] g3] [[v1 v2] v3]. unf. move=> H1 H2 H3.
+  set eN := e1 * n1 + e2 * n2 + e3 * n3 in H1. set Ge := g1 * e1 + g2 * e2 + g3 * e3 in H2. set vN := v1 * n1 + v2 * n2 + v3 * n3 in H3.
+  set ee := e1 * e1 + e2 * e2 + e3 * e3. set nn := n1 * n1 + n2 * n2 + n3 * n3.
+  set Gv := g1 * v1 + g2 * v2 + g3 * v3. set ve := v1 * e1 + v2 * e2 + v3 * e3. set GN := g1 * n1 + g2 * n2 + g3 * n3.
+  have E : ee * nn * Gv - (v1 * (e2 * n3 - e3 * n2) + v2 * (e3 * n1 - e1 * n3) + v3 * (e1 * n2 - e2 * n1))
+                          * (g1 * (e2 * n3 - e3 * n2) + g2 * (e3 * n1 - e1 * n3) + g3 * (e1 * n2 - e2 * n1))
+           = eN * (eN * Gv - vN * Ge - ve * GN) + Ge * (ve * nn) + vN * (ee * GN)
+    by rewrite /eN /Ge /vN /ee /nn /Gv /ve /GN; ring.
+  rewrite H1 H2 H3 in E. lra.
+Qed.
+
+Theorem cover_cert_covers Fs :
+  (forall F, In F Fs -> face_wf F /\ 0 < vdot Rops (fnormal3 Rops F) (fnormal3 Rops F)) -> cover_cert Fs -> faces_cover Fs.
+Proof.
+  move=> Hwf Hcert F w HF Hw Pw e He.
+  have [[Hv Hne] HNN] := Hwf F HF.
+  have [G [HG [Ga [Gb Hpos]]]] := Hcert F e HF He.
+  have [Ia Ib] := cpairs_in F e He.
+  have [Pa _] := Hv _ Ia. have [Pb _] := Hv _ Ib.
+  set a := fst e in Ga Pa *. set b := snd e in Gb Pb Hpos *. set N := fnormal3 Rops F in HNN Hpos *. set ev := vsub Rops b a in Hpos *.
+  have HeN : vdot Rops ev N = 0. { rewrite dot_comm /ev -/N -plane_val_diff Pa Pb. ring. }
+  have HGe : vdot Rops (fnormal3 Rops G) ev = 0. { rewrite /ev -plane_val_diff Ga Gb. ring. }
+  have HvN : vdot Rops (vsub Rops w a) N = 0. { rewrite dot_comm -/N -plane_val_diff Pw Pa. ring. }
+  have HGv : vdot Rops (fnormal3 Rops G) (vsub Rops w a) <= 0.
+  { rewrite -plane_val_diff Ga. have := proj1 (in_core_spec Fs w) Hw G HG. lra. }
+  have Hee : 0 < vdot Rops ev ev. { apply sub_norm_pos. exact (Hne e He). }
+  have S := side_sign ev N (fnormal3 Rops G) (vsub Rops w a) HeN HGe HvN.
+  rewrite /side_val -/N -/a -/b -/ev. rewrite (dot_comm (vcross Rops ev N)).
+  set sv := vdot Rops (vsub Rops w a) (vcross Rops ev N) in S *.
+  case: (Rle_dec sv 0) => Hs; first exact Hs. exfalso.
+  have : 0 < sv * vdot Rops (fnormal3 Rops G) (vcross Rops ev N) by apply Rmult_lt_0_compat; lra.
+  have : vdot Rops ev ev * vdot Rops N N * vdot Rops (fnormal3 Rops G) (vsub Rops w a) <= 0.
+  { have : 0 <= vdot Rops ev ev * vdot Rops N N * (- vdot Rops (fnormal3 Rops G) (vsub Rops w a)) by apply Rmult_le_pos; [apply Rmult_le_pos|]; lra. lra. }
+  lra.
+Qed.
+
+(* ---- 7. the boolean certificate implies the hypotheses; the algorithm is then correct for the whole solid ---- *)
+Lemma Reqb_true a b : Reqb a b = true <-> a = b.
+Proof. rewrite /Reqb. case: (Req_EM_T a b) => H; split=> //. Qed.
+
+Lemma veqb_false (a b : V3) : veqb Rops a b = false -> a <> b.
+Proof.
+  move=> H E. rewrite E /veqb in H. cbn [oeqb Rops] in H.
+  have R1 : forall u, Reqb u u = true by move=> u; apply Reqb_true.
+  by rewrite !R1 in H.
+Qed.
+
+Lemma face_wfb_ok F : face_wfb Rops F = true -> face_wf F.
+Proof.
+  move/andb_true_iff => [H1 H2]. rewrite !forallb_forall in H1 H2. split.
+  - move=> v Hv. move/andb_true_iff: (H1 v Hv) => [/Reqb_true Hp /in_prism_sides_ok Hs]. by split.
+  - move=> e He. apply veqb_false. apply negb_true_iff. exact (H2 e He).
+Qed.
+Lemma strictly_convexb_ok F : strictly_convexb Rops F = true -> strictly_convex F.
+Proof.
+  rewrite /strictly_convexb forallb_forall => H a b c Hin. have := H _ Hin. cbn [fst snd]. by move/Rltb_true.
+Qed.
+Lemma cover_certb_ok Fs : cover_certb Rops Fs = true -> cover_cert Fs.
+Proof.
+  rewrite /cover_certb forallb_forall => H F e HF He.
+  have := H F HF. rewrite forallb_forall => H'. have := H' e He. rewrite /edge_coveredb.
+  move/existsb_exists => [G [HG /andb_true_iff [/andb_true_iff [/Reqb_true Ga /Reqb_true Gb] /Rltb_true Hp]]].
+  exists G. by repeat split.
+Qed.
+
+Theorem sphero_cert_sound Fs : sphero_certb Rops Fs = true ->
+  (forall F, In F Fs -> face_wf F /\ strictly_convex F) /\ faces_cover Fs.
+Proof.
+  move/andb_true_iff => [H1 H2]. rewrite forallb_forall in H1.
+  have Hall : forall F, In F Fs -> face_wf F /\ strictly_convex F /\ 0 < vdot Rops (fnormal3 Rops F) (fnormal3 Rops F).
+  { move=> F HF. move/andb_true_iff: (H1 F HF) => [/andb_true_iff [Hw /Rltb_true Hn] Hs].
+    split; first by apply face_wfb_ok. split; first by apply strictly_convexb_ok. exact Hn. }
+  split.
+  - move=> F HF. have [A [B _]] := Hall F HF. by split.
+  - apply cover_cert_covers; last by apply cover_certb_ok.
+    move=> F HF. have [A [_ C]] := Hall F HF. by split.
+Qed.
+
+(* THE SPHEROPOLYHEDRON THEOREM: for a certified face list, any rounding radius, any point *)
+Theorem sphero_is_inside_spec r2 Fs x : sphero_certb Rops Fs = true ->
+  ((exists y, in_core Rops Fs y = true /\ dist2 x y <= r2) -> sphero_inside Rops r2 Fs x = true)
+  /\ (sphero_inside Rops r2 Fs x = true ->
+      in_core Rops Fs x = true \/ exists F y, In F Fs /\ in_faceP F y /\ dist2 x y <= r2).
+Proof.
+  move=> Hc. have [Hwf Hcov] := sphero_cert_sound Fs Hc. split.
+  - move=> [y [Hy Hd]]. exact (sphero_inside_complete r2 Fs x y Hwf Hcov Hy Hd).
+  - apply sphero_inside_sound => F HF. exact (proj1 (Hwf F HF)).
 Qed.
